@@ -84,6 +84,55 @@ Definition decl (op : Z) (ps : list Z) : option (Z * tree) :=
            Some (gglwe_external_product_tmp_bytes fam n r a g, tree_gglwe_external_product fam n r a g)
   | 124 => let r := inf ps 2 n in let a := inf ps 8 n in let g := inf ps 14 n in
            Some (ggsw_external_product_tmp_bytes fam n r a g, tree_ggsw_external_product fam n r a g)
+  (* LWE operations: ps = [be; n; res_b2k; res_k; res_nlwe; a_b2k; a_k; a_nlwe; glwe(6); key(6)] *)
+  | 143 => let r := mkInfos (q 4%nat) (q 2%nat) (div_ceil (q 3%nat) (q 2%nat)) 0 0 0 1 in
+           let a := mkInfos (q 7%nat) (q 5%nat) (div_ceil (q 6%nat) (q 5%nat)) 0 0 0 1 in let k := inf ps 14 n in
+           Some (lwe_keyswitch_tmp_bytes fam n r a k, tree_lwe_keyswitch fam n r a k)
+  | 144 => let l := mkInfos (q 7%nat) (q 5%nat) (div_ceil (q 6%nat) (q 5%nat)) 0 0 0 1 in
+           let g := inf ps 8 n in let k := inf ps 14 n in
+           Some (glwe_from_lwe_tmp_bytes fam n g l k, tree_glwe_from_lwe fam n g l k)
+  | 145 => let l := mkInfos (q 4%nat) (q 2%nat) (div_ceil (q 3%nat) (q 2%nat)) 0 0 0 1 in
+           let g := inf ps 8 n in let k := inf ps 14 n in
+           Some (lwe_from_glwe_tmp_bytes fam n l g k, tree_lwe_from_glwe fam n l g k)
+  (* encryption of gadget ciphertexts and evaluation keys: ps = [be; n; key(6); n_lwe] *)
+  | 130 => let k := inf ps 2 n in Some (gglwe_encrypt_sk_tmp_bytes fam n k, tree_gglwe_encrypt_sk fam n k)
+  | 131 => let k := inf ps 2 n in Some (ggsw_encrypt_sk_tmp_bytes fam n k, tree_ggsw_encrypt_sk fam n k)
+  | 132 => let k := inf ps 2 n in Some (glwe_switching_key_encrypt_sk_tmp_bytes fam n k, tree_glwe_switching_key_encrypt_sk fam n k)
+  | 133 => let k := inf ps 2 n in Some (glwe_automorphism_key_encrypt_sk_tmp_bytes fam n k, tree_glwe_automorphism_key_encrypt_sk fam n k)
+  | 134 => let k := inf ps 2 n in Some (glwe_tensor_key_encrypt_sk_tmp_bytes fam n k, tree_glwe_tensor_key_encrypt_sk fam n k)
+  | 135 => let k := inf ps 2 n in Some (gglwe_to_ggsw_key_encrypt_sk_tmp_bytes fam n k, tree_gglwe_to_ggsw_key_encrypt_sk fam n k)
+  | 136 => let k := inf ps 2 n in Some (lwe_switching_key_encrypt_sk_tmp_bytes fam n k, tree_lwe_switching_key_encrypt_sk fam n k)
+  | 137 => let k := inf ps 2 n in Some (glwe_to_lwe_key_encrypt_sk_tmp_bytes fam n k, tree_glwe_to_lwe_key_encrypt_sk fam n k)
+  | 138 => let k := inf ps 2 n in Some (lwe_to_glwe_key_encrypt_sk_tmp_bytes fam n k, tree_lwe_to_glwe_key_encrypt_sk fam n k)
+  (* compressed encryptions: ps = [be; n; layout(6)] *)
+  | 190 => let k := inf ps 2 n in Some (glwe_compressed_encrypt_sk_tmp_bytes fam n k, tree_glwe_compressed_encrypt_sk fam n k)
+  | 191 => let k := inf ps 2 n in Some (gglwe_compressed_encrypt_sk_tmp_bytes fam n k, tree_gglwe_compressed_encrypt_sk fam n k)
+  | 192 => let k := inf ps 2 n in Some (ggsw_compressed_encrypt_sk_tmp_bytes fam n k, tree_ggsw_compressed_encrypt_sk fam n k)
+  | 193 => let k := inf ps 2 n in Some (glwe_switching_key_compressed_encrypt_sk_tmp_bytes fam n k, tree_glwe_switching_key_compressed_encrypt_sk fam n k)
+  | 194 => let k := inf ps 2 n in Some (glwe_automorphism_key_compressed_encrypt_sk_tmp_bytes fam n k, tree_glwe_automorphism_key_compressed_encrypt_sk fam n k)
+  | 195 => let k := inf ps 2 n in Some (glwe_tensor_key_compressed_encrypt_sk_tmp_bytes fam n k, tree_glwe_tensor_key_compressed_encrypt_sk fam n k)
+  | 196 => let k := inf ps 2 n in Some (gglwe_to_ggsw_key_compressed_encrypt_sk_tmp_bytes fam n k, tree_gglwe_to_ggsw_key_compressed_encrypt_sk fam n k)
+  (* ggsw_keyswitch / ggsw_automorphism / ggsw_from_gglwe: ps = [be; n; res ggsw(6); a ggsw(6); key(6); tsk(6)] *)
+  | 140 => let r := inf ps 2 n in let a := inf ps 8 n in let k := inf ps 14 n in let t := inf ps 20 n in
+           Some (ggsw_keyswitch_tmp_bytes fam n r a k t, tree_ggsw_keyswitch fam n r a k t)
+  | 141 => let r := inf ps 2 n in let a := inf ps 8 n in let k := inf ps 14 n in let t := inf ps 20 n in
+           Some (ggsw_automorphism_tmp_bytes fam n r a k t, tree_ggsw_automorphism fam n r a k t)
+  | 146 => let r := inf ps 2 n in let t := inf ps 20 n in
+           Some (ggsw_from_gglwe_tmp_bytes fam n r t, tree_ggsw_from_gglwe fam n r t)
+  (* glwe_tensor_relinearize / glwe_tensor_square_apply: ps = [be; n; res(6); a(6); key(6); cnv_offset]; the prepared tensor key
+     has rank_in = max(1, rank (rank + 1) / 2); the harness passes tsk_size = key.size() *)
+  | 148 => let r := inf ps 2 n in let a := inf ps 8 n in let k := inf ps 14 n in
+           let t := mkInfos n (i_base2k k) (i_size k) (i_rank k) (Z.max 1 ((i_rank k + 1) * i_rank k / 2)) (i_dnum k) (i_dsize k) in
+           Some (glwe_tensor_relinearize_tmp_bytes fam n r a t, tree_glwe_tensor_relinearize fam n r a t (i_size k))
+  | 149 => let r := inf ps 2 n in let a := inf ps 8 n in
+           Some (glwe_tensor_square_apply_tmp_bytes fam n r a, tree_glwe_tensor_square_apply fam n r a (p ps 20))
+  (* cmux family: ps = [be; n; res(6); a(6); ggsw(6); variant] (0 cmux, 1 cmux_assign, 2 cmux_assign_neg) *)
+  | 184 => let r := inf ps 2 n in let a := inf ps 8 n in let g := inf ps 14 n in
+           Some (cmux_tmp_bytes fam n r a g, if p ps 20 =? 2 then tree_cmux_assign_neg fam n r a g else tree_cmux fam n r g)
+  (* glwe_pack: ps = [be; n; res(6); inputs(6); key(6)], log_gap_out = 0; the scratch is sized through the public query for
+     the layout of the result and for the layout of the inputs *)
+  | 147 => let r := inf ps 2 n in let a := inf ps 8 n in let k := inf ps 14 n in
+           Some (Z.max (glwe_pack_tmp_bytes fam n r k) (glwe_pack_tmp_bytes fam n a k), tree_glwe_pack fam n r a k (Z.log2 n) 0)
   | _ => None
   end.
 
